@@ -1939,6 +1939,25 @@ OptResult NifFile::OptimizeFor(OptOptions& options) {
 				if (shape->IsSkinned()) {
 					auto skinInst = hdr.GetBlock<NiSkinInstance>(shape->SkinInstanceRef());
 					if (skinInst) {
+						// SE files may keep the weights only per vertex (no weights in NiSkinData).
+						// LE needs them in NiSkinData, they would be lost otherwise.
+						auto skinData = hdr.GetBlock(skinInst->dataRef);
+						if (skinData && !skinData->hasVertWeights) {
+							for (uint16_t vi = 0; vi < bsTriShape->GetNumVertices(); vi++) {
+								auto& vertex = bsTriShape->vertData[vi];
+								for (int wi = 0; wi < 4; wi++) {
+									if (vertex.weights[wi] > 0.0f && vertex.weightBones[wi] < skinData->bones.size())
+										skinData->bones[vertex.weightBones[wi]].vertexWeights.emplace_back(
+											SkinWeight(vi, vertex.weights[wi]));
+								}
+							}
+
+							for (auto& bone : skinData->bones)
+								bone.numVertices = static_cast<uint16_t>(bone.vertexWeights.size());
+
+							skinData->hasVertWeights = 1;
+						}
+
 						auto skinPart = hdr.GetBlock(skinInst->skinPartitionRef);
 						if (skinPart) {
 							bool triangulated = skinPart->ConvertStripsToTriangles();
